@@ -149,7 +149,7 @@ TRACE_PLANS = {
         drivers={"quick": (16, 18), "thorough": (400, 40)}),
     "C13": dict(
         layout={"quick": (2, 1, 2, 3), "thorough": (2, 1, 3, 4)},
-        layout_faults={"quick": ["no_refresh_on_merge"], "thorough": ["no_refresh_on_merge", "dup_on_merge", "refresh_before_remove"]},
+        layout_faults={"quick": ["stale_handles", "refresh_before_remove"], "thorough": ["no_refresh_on_merge", "dup_on_merge", "refresh_before_remove", "stale_handles"]},
         cover={"quick": [cov("U2", "U2_ScriptsReg", "F_Reg", 520)], "thorough": [cov("U2", "U2_ScriptsReg", "F_Reg", 3000, depth=2)]},
         exhaustive={"quick": [("U4", 3, "Fam_All")], "thorough": [("U4", 4, "Fam_All")]},
         simulate={"quick": [sim("U2", 32, 11, "Fam_All", "NextSim_Struct"), sim("U3", 32, 11, "Fam_All", "NextSim_Struct")],
@@ -158,7 +158,7 @@ TRACE_PLANS = {
         drivers={"quick": (16, 18), "thorough": (400, 40)}),
     "C20": dict(
         layout={"quick": (2, 1, 2, 3), "thorough": (2, 1, 3, 4)},
-        layout_faults={"quick": ["no_refresh_on_merge"], "thorough": ["no_refresh_on_merge", "dup_on_merge", "refresh_before_remove"]},
+        layout_faults={"quick": ["stale_handles", "refresh_before_remove"], "thorough": ["no_refresh_on_merge", "dup_on_merge", "refresh_before_remove", "stale_handles"]},
         cover={"quick": [cov("U2", "U2_ScriptsReg", "F_Reg", 520)], "thorough": [cov("U2", "U2_ScriptsReg", "F_Reg", 3000, depth=2)]},
         exhaustive={"quick": [("U4", 3, "Fam_All")], "thorough": [("U4", 4, "Fam_All")]},
         simulate={"quick": [sim("U2", 32, 11, "Fam_All", "NextSim_Comp"), sim("U3", 32, 11, "Fam_All", "NextSim_Comp")],
